@@ -30,6 +30,75 @@ type Obs struct {
 	Marks   []uint64
 	Writes  int
 	Panic   interface{}
+	// what the filtered events of the prelude did (all of it should be nothing)
+	PreWrites int
+	PreLines  [][]byte
+	PreMarks  []uint64
+}
+
+// Prelude: events that are NOT enabled, started on the case's logger before the case's own event, on the
+// same goroutine.  They must be inert; what they were given (pooled Arr()/Dict() values, marshalers,
+// callbacks) must not show up in, or change, the event that follows.  The model knows nothing of them.
+type Prelude struct {
+	Early bool // run on the root logger, before the derivation chain is built (default: on the derived logger, just before the event)
+	Mode  int  // 0 logger level above the event's, 1 global level above, 2 sampler that rejects, 3 WithLevel(Disabled), 4 Disabled logger
+	Ops   []Op
+	Reps  int
+	Fin   int
+}
+
+var PreludeModes = []string{"logger-level", "global-level", "sampler-rejects", "WithLevel(Disabled)", "logger-disabled"}
+
+type rejectAll struct{}
+
+func (rejectAll) Sample(zerolog.Level) bool { return false }
+
+func finish(e *zerolog.Event, fin int, msg string) {
+	switch {
+	case fin == 1 && msg == "":
+		e.Send()
+	case fin == 2:
+		e.Msgf("%s", msg)
+	case fin == 3:
+		e.MsgFunc(func() string { return msg })
+	default:
+		e.Msg(msg)
+	}
+}
+
+func (p *Prelude) run(l zerolog.Logger) {
+	reps := p.Reps
+	if reps < 1 {
+		reps = 1
+	}
+	for i := 0; i < reps; i++ {
+		var e *zerolog.Event
+		switch p.Mode {
+		case 0:
+			fl := l.Level(zerolog.WarnLevel)
+			e = fl.Info()
+		case 1:
+			zerolog.SetGlobalLevel(zerolog.ErrorLevel)
+			e = l.WithLevel(zerolog.WarnLevel)
+		case 2:
+			fl := l.Sample(rejectAll{})
+			e = fl.Log()
+		case 3:
+			e = l.WithLevel(zerolog.Disabled)
+		default:
+			fl := l.Level(zerolog.Disabled)
+			e = fl.Error()
+		}
+		ApplyEvent(e, p.Ops)
+		msg := "filtered"
+		if p.Fin == 1 {
+			msg = ""
+		}
+		finish(e, p.Fin, msg)
+		if p.Mode == 1 {
+			zerolog.SetGlobalLevel(zerolog.Level(-128))
+		}
+	}
 }
 
 // Run executes the case on the real zerolog (current build's encoder).
@@ -54,23 +123,28 @@ func (c *Case) Run() (obs Obs) {
 		}
 	}()
 	l := zerolog.New(w).Level(zerolog.Level(-128))
+	pre := func() {
+		Marks = nil
+		c.Pre.run(l)
+		zerolog.SetGlobalLevel(zerolog.Level(-128))
+		obs.PreMarks = append([]uint64{}, Marks...)
+		obs.PreWrites = len(w.lines)
+		obs.PreLines = w.lines
+		w.lines, w.levels = nil, nil
+	}
+	if c.Pre != nil && c.Pre.Early {
+		pre()
+	}
 	for _, st := range c.Steps {
 		l = ApplyStep(l, st, w)
+	}
+	if c.Pre != nil && !c.Pre.Early {
+		pre()
 	}
 	Marks = nil // marshalers run while deriving the logger are not part of the event's trace
 	e := l.WithLevel(zerolog.Level(c.Level))
 	ApplyEvent(e, c.Ops)
-	msg := string(c.Msg)
-	switch {
-	case c.Fin == 1 && len(c.Msg) == 0:
-		e.Send()
-	case c.Fin == 2:
-		e.Msgf("%s", msg)
-	case c.Fin == 3:
-		e.MsgFunc(func() string { return msg })
-	default:
-		e.Msg(msg)
-	}
+	finish(e, c.Fin, string(c.Msg))
 	return
 }
 
@@ -106,7 +180,11 @@ func (c *Case) Describe() interface{} {
 		}
 		steps = append(steps, map[string]interface{}{"update": st.Update, "cops": cs})
 	}
-	return map[string]interface{}{"settings": fmt.Sprintf("%+v", c.S), "steps": steps, "level": c.Level, "ops": DescribeOps(c.Ops), "msg": fmt.Sprintf("%q", c.Msg), "finalizer": c.Fin}
+	d := map[string]interface{}{"settings": fmt.Sprintf("%+v", c.S), "steps": steps, "level": c.Level, "ops": DescribeOps(c.Ops), "msg": fmt.Sprintf("%q", c.Msg), "finalizer": c.Fin}
+	if c.Pre != nil {
+		d["before_the_event"] = map[string]interface{}{"a_filtered_event_on_the_same_logger": PreludeModes[c.Pre.Mode], "times": c.Pre.Reps, "before_the_logger_is_derived": c.Pre.Early, "ops": DescribeOps(c.Pre.Ops), "finalizer": c.Pre.Fin}
+	}
+	return d
 }
 
 // HookMarks returns the mark ids of the hooks attached along the derivation, in registration order.
